@@ -191,6 +191,18 @@ Example C05_witness_app : Bstr (complement (bs "AC"%bs ++ bs "GU"%bs)) = "UGCA"%
   nth_error (rc (bs "AACGU"%bs)) 1 = Some "C"%byte.
 Proof. exact witness_app. Qed.
 
+(* what BioSeq.gc counts: G and C over A, C, G, T, U; ambiguity codes (S = G|C included), gaps and all other symbols are ignored;
+   additive over concatenation, invariant under reverse (complement and rc: C05_gc_rc) *)
+Theorem C05_gc_meaning : forall s,
+  gc_counts s = (length (filter isGC s), length (filter isGC s) + length (filter isATU s)) /\
+  gc_counts (reverse s) = gc_counts s /\
+  (forall a b, gc_counts (a ++ b) = (fst (gc_counts a) + fst (gc_counts b), snd (gc_counts a) + snd (gc_counts b))).
+Proof. exact gc_meaning. Qed.
+Print Assumptions C05_gc_meaning.
+
+Example C05_witness_gc : gc_counts (bs "SSGC-NRAU"%bs) = (2, 4) /\ gc_counts (bs "SN-."%bs) = (0, 0).
+Proof. exact witness_gc. Qed.
+
 (* ---- round 7: objects, baskets, histories ---- *)
 (* "for seq in self: seq.f()": an object is operated on once per listing in the basket *)
 Theorem C05_basket_loop : forall f b h i, i < length h ->
